@@ -10,6 +10,23 @@ use std::time::Instant;
 
 pub const VERIF_ROOT: &str = "/verif";
 
+/// Where evidence, replays and scratch files go (default /verif; the mutation
+/// rig points this elsewhere so that experiments do not overwrite evidence).
+pub fn out_root() -> PathBuf {
+    match std::env::var("VERIF_OUT") {
+        Ok(p) if !p.is_empty() => PathBuf::from(p),
+        _ => PathBuf::from(VERIF_ROOT),
+    }
+}
+
+/// Directory holding the repository's binaries built with hooks on.
+pub fn bin_dir() -> PathBuf {
+    match std::env::var("VERIF_BIN_DIR") {
+        Ok(p) if !p.is_empty() => PathBuf::from(p),
+        _ => PathBuf::from("/verif/target/repo/release"),
+    }
+}
+
 #[derive(Debug, Copy, Clone, Eq, PartialEq)]
 pub enum Tier {
     Quick,
@@ -194,7 +211,7 @@ pub fn finish(ctx: &Ctx, mut report: Report) -> i32 {
         );
     }
 
-    let replay_dir = Path::new(VERIF_ROOT).join("replays").join(ctx.id);
+    let replay_dir = out_root().join("replays").join(ctx.id);
     let mut shown = 0usize;
     let mut seen_clause: BTreeMap<String, usize> = BTreeMap::new();
     let mut replay_paths = Vec::new();
@@ -279,7 +296,7 @@ pub fn finish(ctx: &Ctx, mut report: Report) -> i32 {
         "violations": n_unlisted,
         "known_finding_occurrences": n_known,
     });
-    let dir = Path::new(VERIF_ROOT).join("evidence");
+    let dir = out_root().join("evidence");
     let _ = std::fs::create_dir_all(&dir);
     let path = dir.join(format!("{}.json", ctx.id));
     if let Err(e) = std::fs::write(
@@ -412,7 +429,7 @@ impl Sink {
 }
 
 pub fn work_dir(tag: &str) -> PathBuf {
-    let p = Path::new(VERIF_ROOT)
+    let p = out_root()
         .join(".work")
         .join(format!("{}-{}", tag, std::process::id()));
     let _ = std::fs::remove_dir_all(&p);
@@ -431,4 +448,24 @@ pub fn rss_mb() -> u64 {
         }
     }
     0
+}
+
+/// Used by watchdog threads: report one violation (e.g. non-termination),
+/// write minimal evidence and end the process with exit code 1.
+pub fn finish_emergency(id: &'static str, tier: Tier, seed: u64, started: Instant, v: Violation) -> ! {
+    let ctx = Ctx {
+        id,
+        tier,
+        seed,
+        start: started,
+        threads: 1,
+    };
+    let mut report = Report::new();
+    report.exhaustive = false;
+    report.evaluations = 1;
+    report.rule = "run ended by the watchdog: an execution did not return".into();
+    report.samples.push(v.replay.clone());
+    report.violations.push(v);
+    let code = finish(&ctx, report);
+    std::process::exit(if code == 0 { 0 } else { 1 });
 }
